@@ -219,10 +219,20 @@ def unit_rate(model, sizes, vec, limit, use_t):
     return recs
 
 
+def unit_anysize(model, n, gamma_mode):
+    """sigma' in (0, prior] for an arbitrary member of teams of every size"""
+    from . import anysize
+    return anysize.c06(model, n, gamma_mode)
+
+
 def units(tier):
     us = [("unit_lemmas", ())]
     nmax = 4 if tier == "quick" else 8
     for m in extract.MODELS:
+        for n in range(2, (4 if tier == "quick" else 7) + 1):
+            us.append(("unit_anysize", (m, n, "default")))
+            if n <= 4:
+                us.append(("unit_anysize", (m, n, "custom")))
         for n in range(2, nmax + 1):
             svs = size_vectors(n, tier)
             for sizes in (svs if n <= 3 or tier == "thorough" else svs[:1]):
@@ -235,7 +245,7 @@ def units(tier):
         for vec in ("scores", "none"):
             for limit in (False, True):
                 us.append(("unit_rate", (m, (1, 1) if tier == "quick" else (2, 1), vec, limit, True)))
-    us.sort(key=lambda u: -(sum(u[1][1]) * 2 ** len(u[1][1])) if u[0] != "unit_lemmas" else 0)
+    us.sort(key=lambda u: (-(sum(u[1][1]) * 2 ** len(u[1][1])) if u[0] not in ("unit_lemmas", "unit_anysize") else (-(2 ** u[1][1]) if u[0] == "unit_anysize" else 0)))
     return us
 
 
@@ -252,10 +262,11 @@ def main(tier, seed):
             "kappa in (0, 1] (the property's range is (0, 1e-2]); sigma > 0 on entry, tau >= 0",
             "league histories are NOT run: the per-call bounds are inductive (lemma history-step), so sigma_n^2 <= sigma_0^2 + n tau^2 and non-increasing under limit_sigma follow by induction on the history (meta-step)",
             "'finite' is C08's business",
+            __import__("pyvc.props.anysize", fromlist=["A_SUM"]).A_SUM,
             "shape-bounded: all tie patterns, n = 2..4 quick / 2..8 thorough, team-size vectors in coverage.shapes; rate-level link for small shapes with every weak order",
         ],
         explanation=("Per shape and tie pattern the sigma returned by the real _compute is reduced to its exact normal form sigma_in*sqrt(max(a,b)); b = kappa, 1 - a = the variance step, which is proved >= 0 term-wise after raising to common denominators (w, wt, gamma >= 0 from contracts), so 0 < Y <= 1; "
                      "the same is proved for the sigma returned by the real rate() on every path of the sort for symbolic rank values and per-call tau, with sigma_in = sqrt(prior^2+tau^2), and with limit_sigma the result is the prior itself or satisfies the path condition sigma <= prior. "
                      "Shape-independent lemmas by z3 give 0 < sigma*sqrt(Y) <= sigma, prior <= sqrt(prior^2+tau^2) and the inductive history step."),
-        shapes=sorted({str(u[1][1]) for u in units(tier) if u[0] != "unit_lemmas"}),
+        shapes=sorted({(str(u[1][1]) if u[0] != "unit_anysize" else f"n={u[1][1]}, every team size") for u in units(tier) if u[0] != "unit_lemmas"}),
     )
